@@ -1,1 +1,172 @@
-//! reference model: map
+//! reference model: element-wise mapping operations by their positional definitions (C13).
+use crate::roll::Exp;
+use crate::X;
+
+/// A mapping operation with its parameters; values are logical (`X`) and encoded per element type.
+#[derive(Clone, Debug, PartialEq)]
+pub enum MapOp {
+    Shift(i32, X),
+    VShift(i32, Option<X>),
+    VDiff(i32, Option<X>),
+    VPct(i32),
+    Ffill(Option<X>),
+    Bfill(Option<X>),
+    Fill(X),
+    /// mask = "element equals zero"
+    FfillMask0(Option<X>),
+    BfillMask0(Option<X>),
+    FillMask0(X),
+    VClip(X, X),
+    Abs,
+    VAbs,
+    VRank(bool, bool),
+    VPartition(usize, bool, bool),
+    VArgPartition(usize, bool, bool),
+}
+
+impl MapOp {
+    pub fn name(&self) -> String {
+        match self {
+            MapOp::Shift(..) => "shift".into(),
+            MapOp::VShift(..) => "vshift".into(),
+            MapOp::VDiff(..) => "vdiff".into(),
+            MapOp::VPct(..) => "vpct_change".into(),
+            MapOp::Ffill(..) => "ffill".into(),
+            MapOp::Bfill(..) => "bfill".into(),
+            MapOp::Fill(..) => "fill".into(),
+            MapOp::FfillMask0(..) => "ffill_mask".into(),
+            MapOp::BfillMask0(..) => "bfill_mask".into(),
+            MapOp::FillMask0(..) => "fill_mask".into(),
+            MapOp::VClip(..) => "vclip".into(),
+            MapOp::Abs => "abs".into(),
+            MapOp::VAbs => "vabs".into(),
+            MapOp::VRank(p, r) => format!("vrank(pct={p},rev={r})"),
+            MapOp::VPartition(_, s, r) => format!("vpartition(sort={s},rev={r})"),
+            MapOp::VArgPartition(_, s, r) => format!("varg_partition(sort={s},rev={r})"),
+        }
+    }
+    pub fn show(&self) -> String {
+        format!("{self:?}")
+    }
+    /// the adaptor preserves the length of its input
+    pub fn length_preserving(&self) -> bool {
+        !matches!(self, MapOp::VPartition(..) | MapOp::VArgPartition(..))
+    }
+}
+
+fn ex(x: X) -> Exp {
+    match x {
+        Some(v) => Exp::val(v),
+        None => Exp::NULL,
+    }
+}
+
+fn lagged(x: &[X], i: usize, n: i64) -> Option<X> {
+    let j = i as i64 - n;
+    if j >= 0 && (j as usize) < x.len() {
+        Some(x[j as usize])
+    } else {
+        None
+    }
+}
+
+fn fill_dir(x: &[X], masked: &dyn Fn(&X) -> bool, default: Option<X>, forward: bool) -> Vec<Exp> {
+    let n = x.len();
+    (0..n)
+        .map(|i| {
+            if !masked(&x[i]) {
+                return ex(x[i]);
+            }
+            let found = if forward { (0..i).rev().find(|j| !masked(&x[*j])) } else { (i + 1..n).find(|j| !masked(&x[*j])) };
+            match found {
+                Some(j) => ex(x[j]),
+                None => ex(default.unwrap_or(None)),
+            }
+        })
+        .collect()
+}
+
+/// positional model of the element-wise operations (one expectation per input element).
+/// Not for rank / partitions (see order.rs).
+pub fn map_model(op: &MapOp, x: &[X]) -> Vec<Exp> {
+    let n = x.len();
+    let is_null = |v: &X| v.is_none();
+    let is_zero = |v: &X| *v == Some(0.0);
+    match op {
+        MapOp::Shift(k, fill) => (0..n).map(|i| ex(lagged(x, i, *k as i64).unwrap_or(*fill))).collect(),
+        MapOp::VShift(k, fill) => (0..n).map(|i| ex(lagged(x, i, *k as i64).unwrap_or(fill.unwrap_or(None)))).collect(),
+        MapOp::VDiff(k, fill) => (0..n)
+            .map(|i| match lagged(x, i, *k as i64) {
+                None => ex(fill.unwrap_or(None)),
+                Some(b) => match (x[i], b) {
+                    (Some(a), Some(b)) => Exp::val(a - b),
+                    _ => Exp::NULL,
+                },
+            })
+            .collect(),
+        MapOp::VPct(k) => (0..n)
+            .map(|i| match lagged(x, i, *k as i64) {
+                None => Exp::NULL,
+                Some(b) => match (x[i], b) {
+                    (Some(a), Some(b)) if b != 0.0 => Exp::val(a / b - 1.0),
+                    _ => Exp::NULL,
+                },
+            })
+            .collect(),
+        MapOp::Ffill(d) => fill_dir(x, &is_null, *d, true),
+        MapOp::Bfill(d) => fill_dir(x, &is_null, *d, false),
+        MapOp::FfillMask0(d) => fill_dir(x, &is_zero, *d, true),
+        MapOp::BfillMask0(d) => fill_dir(x, &is_zero, *d, false),
+        MapOp::Fill(v) => x.iter().map(|a| ex(if a.is_none() { *v } else { *a })).collect(),
+        MapOp::FillMask0(v) => x.iter().map(|a| ex(if is_zero(a) { *v } else { *a })).collect(),
+        MapOp::VClip(lo, hi) => x
+            .iter()
+            .map(|a| match a {
+                None => Exp::NULL,
+                Some(v) => match (lo, hi) {
+                    (Some(l), Some(h)) if l > h => Exp { null_ok: false, val: None, warm: false, any: true }, // only non-nullness claimed
+                    _ => {
+                        let mut r = *v;
+                        if let Some(l) = lo {
+                            if r < *l {
+                                r = *l;
+                            }
+                        }
+                        if let Some(h) = hi {
+                            if r > *h {
+                                r = *h;
+                            }
+                        }
+                        Exp::val(r)
+                    }
+                },
+            })
+            .collect(),
+        MapOp::Abs | MapOp::VAbs => x.iter().map(|a| ex(a.map(|v| v.abs()))).collect(),
+        _ => panic!("not an element-wise operation"),
+    }
+}
+
+#[cfg(test)]
+mod tests {
+    use super::*;
+    fn s(v: &[f64]) -> Vec<X> {
+        v.iter().map(|x| if x.is_nan() { None } else { Some(*x) }).collect()
+    }
+    fn vals(e: &[Exp]) -> Vec<X> {
+        e.iter().map(|x| x.val).collect()
+    }
+    #[test]
+    fn golden_from_repo_tests() {
+        let nan = f64::NAN;
+        assert_eq!(vals(&map_model(&MapOp::VShift(2, None), &s(&[1., 2., 3., 4., 5.]))), s(&[nan, nan, 1., 2., 3.]));
+        assert_eq!(vals(&map_model(&MapOp::VShift(-2, Some(Some(0.))), &s(&[1., 2., 3., 4., 5.]))), s(&[3., 4., 5., 0., 0.]));
+        assert_eq!(vals(&map_model(&MapOp::VDiff(1, None), &s(&[4., 1., 12., 4.]))), s(&[nan, -3., 11., -8.]));
+        assert_eq!(vals(&map_model(&MapOp::VDiff(-1, Some(Some(0.))), &s(&[4., 1., 12., 4.]))), s(&[3., -11., 8., 0.]));
+        assert_eq!(vals(&map_model(&MapOp::VPct(1), &s(&[1., 2., 3., 4.5]))), s(&[nan, 1., 0.5, 0.5]));
+        let v = s(&[nan, 1., 2., nan, 3., nan]);
+        assert_eq!(vals(&map_model(&MapOp::Ffill(None), &v)), s(&[nan, 1., 2., 2., 3., 3.]));
+        assert_eq!(vals(&map_model(&MapOp::Bfill(Some(Some(0.))), &v)), s(&[1., 1., 2., 3., 3., 0.]));
+        assert_eq!(vals(&map_model(&MapOp::VClip(Some(2.), None), &s(&[1., 2., 3., 4., 5.]))), s(&[2., 2., 3., 4., 5.]));
+    }
+}
